@@ -136,34 +136,40 @@ def run(ctx):
             ctx.finding(sig, f"{kind} status write violates clause {v[5:]}", {"replay_line": r["M"], "judge": v,
                                                                               "info": r.get("I", "")})
 
-    # ---- correspondence: model (faithful and repaired variant) on the same cases
+    # ---- correspondence: the model of the code in the tree (primary) on the same cases; the pre-fix
+    # mutating variant is evaluated too, only to name the regression when the tree matches it instead
     outs = ctx.driver("model", [r["M"] for r in recs])
     matched = collections.Counter()
     diffs = 0
     for r, out in zip(recs, outs):
-        if out == "bad-op" or " fixed=" not in out:
+        if out == "bad-op" or " mutating=" not in out:
             diffs += 1
             if diffs <= 3:
                 ctx.broken("model could not decode a harness line", replay={"model_line": r["M"][:2000]})
             continue
-        buggy, fixed = out[len("buggy="):].split(" fixed=")
-        if r["O"] == buggy and r["O"] == fixed:
-            matched["both"] += 1
-        elif r["O"] == buggy:
-            matched["faithful-only"] += 1
-        elif r["O"] == fixed:
-            matched["repaired-only"] += 1
+        primary, mutating = out[len("primary="):].split(" mutating=")
+        if r["O"] == primary:
+            matched["primary" if primary != mutating else "primary (variants agree)"] += 1
+            continue
+        diffs += 1
+        kind = _kind(r["M"])
+        if r["O"] == mutating:
+            matched["pre-fix-mutating-only"] += 1
+            if matched["pre-fix-mutating-only"] <= 3:
+                ctx.broken(f"{kind}: implementation behaves like the PRE-FIX setter that stores the merged status in its "
+                           f"captured variable (regression of fix 4e76cf1)",
+                           replay={"replay_line": r["M"], "impl": r["O"], "model_primary": primary})
+                sig = f"C08:retry-duplicates-foreign:{kind}"
+                if sig not in seen_sig:   # the judge normally reports it already on the same input
+                    seen_sig.add(sig)
+                    ctx.finding(sig, f"{kind} status setter mutates its captured status again: retried write duplicates "
+                                     f"foreign entries", {"replay_line": r["M"], "impl": r["O"]})
         else:
-            diffs += 1
-            if diffs <= 3:
-                ctx.broken(f"model and implementation disagree on a {_kind(r['M'])} case ({r.get('I', '')})",
-                           replay={"replay_line": r["M"], "impl": r["O"], "model_faithful": buggy,
-                                   "model_repaired": fixed})
-    if matched["repaired-only"] and not matched["faithful-only"]:
-        ctx.notes.append("implementation matches the REPAIRED setter model on every retried case: the known "
-                         "finding retry-duplicates-foreign appears to be fixed upstream")
-    elif matched["repaired-only"]:
-        ctx.broken("implementation matches the faithful model on some retried cases and the repaired one on others")
+            matched["neither"] += 1
+            if matched["neither"] <= 3:
+                ctx.broken(f"model and implementation disagree on a {kind} case ({r.get('I', '')})",
+                           replay={"replay_line": r["M"], "impl": r["O"], "model_primary": primary,
+                                   "model_prefix_mutating": mutating})
 
     # ---- small correspondences: DeduplicateConditions, ancestor-full checks
     small = collections.Counter()
